@@ -481,3 +481,219 @@ def make_c11_oracle(by_id):
             found.append(("coding:" + trig, "trigger %s: transfer coding %s, expected %d" % (trig, t["tc"], exp["coding"])))
         return found
     return oracle
+
+
+# ================================================================================================ C16
+
+HTTP_PAYLOADS = [b"GET /after1 HTTP/1.1\r\nHost: a\r\n\r\n", b"POST /after2 HTTP/1.1\r\nHost: a\r\nContent-Length: 3\r\n\r\nabc",
+                 b"GET /a1 HTTP/1.1\r\nHost: a\r\n\r\nGET /a2 HTTP/1.0\r\n\r\n"]
+BIN_PAYLOADS = [b"\x16\x03\x01\x02\x00\x01\x00\x01\xfc\x03\x03" + bytes(range(40, 90)), b"\x00\x01\x02binary\r\n\r\nmore\r\n", b"SSH-2.0-x\r\nfoo",
+                b"\xff" * 12 + b"\x00" + b"\xff" * 17]   # the probe decides at the first LF or NUL (a payload with neither is buffered)
+
+
+def c16_case(rng):
+    st = rng.choice((200, 200, 204, 101, 407, 403, 500, 302))
+    kind = rng.choice(("http", "bin")) if st != 101 else rng.choice(("bin", "http"))
+    upgrade = (st == 101)
+    if upgrade:
+        head = b"GET /chat HTTP/1.1\r\nHost: s\r\nUpgrade: websocket\r\nConnection: Upgrade\r\n\r\n"
+    else:
+        head = b"CONNECT " + rng.choice((b"host.example:443", b"10.0.0.1:8080", b"[::1]:443")) + b" HTTP/1.1\r\n" + \
+               rng.choice((b"", b"Host: host.example:443\r\n", b"Proxy-Authorization: Basic dTpw\r\n")) + b"\r\n"
+    payload = rng.choice(HTTP_PAYLOADS if kind == "http" else BIN_PAYLOADS)
+    reason = {200: b"Connection established", 204: b"No Content", 101: b"Switching Protocols", 407: b"Proxy Authentication Required",
+              403: b"Forbidden", 500: b"Server Error", 302: b"Found"}[st]
+    resp = b"HTTP/1.1 %d " % st + reason + b"\r\n"
+    rbody = b""
+    if st in (407, 403, 500, 302):
+        rbody = rng.choice((b"", b"denied"))
+        resp += b"Content-Length: %d\r\n" % len(rbody)
+    if upgrade:
+        resp += b"Upgrade: websocket\r\nConnection: Upgrade\r\n"
+    resp += b"\r\n" + rbody
+    # what the server sends next
+    if st // 100 == 2 or upgrade:
+        after = rng.choice((b"", b"\x17\x03\x03serverbinary", b"\x81\x02hi")) if kind == "bin" else \
+            b"".join(b"HTTP/1.1 200 OK\r\nContent-Length: 2\r\n\r\nok" for _ in range(payload.count(b"HTTP/1.")))
+    else:
+        after = b"".join(b"HTTP/1.1 200 OK\r\nContent-Length: 2\r\n\r\nok" for _ in range(payload.count(b"HTTP/1."))) if kind == "http" else b""
+    return {"status": st, "kind": kind, "head": head, "payload": payload, "resp": resp, "after": after, "upgrade": upgrade}
+
+
+def c16_scripts(ctx):
+    rng = ctx.rng
+    n = 700 if ctx.tier == "quick" else 6000
+    out, meta = [], []
+    for _ in range(n):
+        w = c16_case(rng)
+        R = w["head"] + w["payload"]
+        S = w["resp"] + w["after"]
+        cutmode = rng.random()
+        if cutmode < 0.4:
+            # cut positions around the end of the CONNECT head
+            k = len(w["head"]) + rng.randint(-3, 3)
+            k = min(max(k, 1), len(R) - 1) if len(R) > 1 else 1
+            rp = [p for p in (R[:k], R[k:]) if p]
+        else:
+            rp = traffic.chunkings(R, rng, rng.choice(("whole", "rand", "bytes")))
+        sp = traffic.chunkings(S, rng, rng.choice(("whole", "rand", "bytes", "whole")))
+        order = rng.random()
+        if w["upgrade"]:
+            order = 0.5     # a client sends frames of the new protocol only after it has seen the 101
+        if order < 0.45:
+            items = [">" + traffic.hx(p) for p in rp] + ["<" + traffic.hx(p) for p in sp]
+        elif order < 0.6:
+            # head first, then the response, then the payload
+            hp = [p for p in (w["head"],) if p]
+            items = [">" + traffic.hx(w["head"])] + ["<" + traffic.hx(p) for p in sp] + [">" + traffic.hx(p) for p in traffic.chunkings(w["payload"], rng, "rand")]
+        else:
+            # legal interleaving: the CONNECT head is offered before any response byte
+            first = [">" + traffic.hx(rp[0])] if rp else []
+            rest = traffic.interleave(rp[1:], sp, rng)
+            items = first + rest
+            if len(rp[0]) < len(w["head"]):
+                items = [">" + traffic.hx(p) for p in rp] + ["<" + traffic.hx(p) for p in sp]
+        out.append(traffic.script(rng.choice(("respdecomp=0", "p=IDS,respdecomp=0", "respdecomp=0,autodestroy=0")), "-", items,
+                                  extra_after=["conn dump"]))
+        meta.append(w)
+    return out, meta
+
+
+def make_c16_oracle(by_id):
+    def oracle(sc, outs):
+        w = by_id.get(id(sc))
+        if not w:
+            return []
+        found = []
+        calls = [c for _, c in cl.calls_of_script(sc, outs)]
+        g, slots = cl.first_dump(sc, outs)      # state after all data, before close
+        # (a) nothing beyond the CONNECT request is consumed before its response line was seen
+        seen_resp_line = False
+        consumed_req = 0
+        if not w["upgrade"]:
+            for c in calls:
+                if c.dir == "req":
+                    if not seen_resp_line:
+                        for e in c.events:
+                            if e.name == "request_start" and e.tx >= 1:
+                                found.append(("not-suspended", "request %d started before the response to CONNECT was seen" % e.tx))
+                            if e.name == "request_body_data" and e.kind == "bytes" and len(e.data):
+                                found.append(("not-suspended", "body data delivered on the request side before the response to CONNECT"))
+                        consumed_req += c.consumed if c.rc in (DATA, DATA_OTHER) else 0
+                        if consumed_req > len(w["head"]) and not seen_resp_line:
+                            found.append(("consumed-beyond-connect", "request side consumed %d bytes, CONNECT head is %d" % (consumed_req, len(w["head"]))))
+                for e in c.events:
+                    if e.name == "response_line" and e.tx == 0:
+                        seen_resp_line = True
+        # (b) tunnel mode is absorbing and silent
+        tun = False
+        ntx_events = 0
+        for c in calls:
+            if tun and c.dir == "close" and (c.events or c.rc != TUNNEL or c.rc2 != TUNNEL):
+                found.append(("S8-tunnel", "close after tunnel mode: statuses %s,%s, %d callbacks" % (c.rc, c.rc2, len(c.events))))
+            if tun and c.dir in ("req", "res"):
+                if c.rc != TUNNEL:
+                    found.append(("tunnel-left", "%s returned %d after tunnel mode was entered" % (c.dir, c.rc)))
+                if c.events:
+                    found.append(("tunnel-callbacks", "%d callbacks after tunnel mode was entered" % len(c.events)))
+            if c.rc == TUNNEL:
+                tun = True
+        want_tunnel = (w["status"] // 100 == 2 and not w["upgrade"] and w["kind"] == "bin") or (w["upgrade"])
+        if g and want_tunnel:
+            if not (g.get("in_status") == "4" and g.get("out_status") == "4"):
+                found.append(("no-tunnel", "status %d + %s payload: final statuses in=%s out=%s, tunnel expected" % (
+                    w["status"], w["kind"], g.get("in_status"), g.get("out_status"))))
+        # (c) refused CONNECT / 2xx with HTTP payload: the payload requests are parsed exactly once, in order
+        if g and not w["upgrade"] and w["kind"] == "http" and not want_tunnel:
+            lines = [l for l in w["payload"].split(b"\r\n") if l.endswith(b"HTTP/1.1") or l.endswith(b"HTTP/1.0")]
+            got = [cl.unhx(t["line"]) for t in slots if t and t.get("line") not in (None, "~")]
+            want = [w["head"].split(b"\r\n")[0]] + lines
+            if got != want:
+                found.append(("resume", "request lines %r, expected %r" % (got, want)))
+        return found
+    return oracle
+
+
+# ================================================================================================ C04
+
+def c04_scripts(ctx):
+    rng = ctx.rng
+    n = 600 if ctx.tier == "quick" else 5000
+    out, meta = [], []
+    for _ in range(n):
+        N = rng.choice((1, 2, 2, 3, 3, 4, rng.randint(1, 8)))
+        reqs, ress, rq, rs = traffic.gen_exchange(rng, n=N, opts={"folding": False, "repeat": False, "close_delimited": True})
+        # pieces per message, then a legal merge: response i only after the whole of request i
+        rpieces = [traffic.chunkings(x, rng, rng.choice(("whole", "whole", "rand"))) for x in rq]
+        spieces = [traffic.chunkings(x, rng, rng.choice(("whole", "whole", "rand"))) for x in rs]
+        seq = []            # (dir, msg index, piece)
+        ri = [0, 0]         # next request message / piece
+        si = [0, 0]
+        req_done = 0
+        while ri[0] < N or si[0] < N:
+            can_res = si[0] < N and (si[0] < req_done)
+            can_req = ri[0] < N
+            if can_req and (not can_res or rng.random() < 0.5):
+                p = rpieces[ri[0]][ri[1]]
+                seq.append((">", ri[0], ri[1] == 0, p))
+                ri[1] += 1
+                if ri[1] == len(rpieces[ri[0]]):
+                    ri = [ri[0] + 1, 0]
+                    req_done = ri[0]
+            elif can_res:
+                p = spieces[si[0]][si[1]]
+                seq.append(("<", si[0], si[1] == 0, p))
+                si[1] += 1
+                if si[1] == len(spieces[si[0]]):
+                    si = [si[0] + 1, 0]
+            else:
+                break
+        # ground truth for the pipelining indicator: a request starts while fewer responses than earlier requests have begun
+        res_started = 0
+        pipelined = False
+        for d, i, first, p in seq:
+            if d == "<" and first:
+                res_started += 1
+            if d == ">" and first and i > res_started:
+                pipelined = True
+        items = [d + traffic.hx(p) for d, i, first, p in seq]
+        out.append(traffic.script(rng.choice(("respdecomp=0", "p=IDS,respdecomp=0")), "-", items))
+        meta.append({"N": N, "pipelined": pipelined, "reqs": reqs})
+    return out, meta
+
+
+def make_c04_oracle(by_id):
+    def oracle(sc, outs):
+        w = by_id.get(id(sc))
+        if not w:
+            return []
+        g, slots = cl.final_dump(sc, outs)
+        found = []
+        if not g:
+            return [("no-dump", "no dump")]
+        if len(slots) != w["N"]:
+            return [("tx-count", "%d transactions for %d exchanges" % (len(slots), w["N"]))]
+        for i, t in enumerate(slots):
+            if not t:
+                found.append(("tx-missing", "slot %d empty" % i)); continue
+            uri = cl.unhx(t["uri"]) if t["uri"] != "~" else b""
+            want_id = b"id%d" % i
+            # the request generator puts ?idN in the target unless it already had a query: fall back to order of request lines
+            hdrs = dict((n.lower(), v) for n, v, f in cl.headers_of(t, "sh"))
+            if hdrs.get(b"x-id") != want_id:
+                found.append(("pairing", "transaction %d carries response %r" % (i, hdrs.get(b"x-id"))))
+            if cl.unhx(t["m"]) != w["reqs"][i].method or uri != w["reqs"][i].target:
+                found.append(("order", "transaction %d carries request %r %r, expected %r %r" % (i, cl.unhx(t["m"]), uri, w["reqs"][i].method, w["reqs"][i].target)))
+        pip = (int(g.get("conn_flags", "0")) & 1) != 0
+        if pip != w["pipelined"]:
+            found.append(("pipelined-flag", "pipelining indicator %s, schedule says %s" % (pip, w["pipelined"])))
+        return found
+    return oracle
+
+
+RULES = {
+    "C16": "CONNECT / Upgrade exchanges x status {200,204,101,407,403,500,302} x payload {HTTP requests, binary} x feed order (request first, "
+           "head-response-payload, legal interleavings) x cuts around the end of the CONNECT head, 1-byte, random; distinct = distinct final dumps",
+    "C04": "N in 1..8 tagged well-formed exchanges (unique ids in URI and response header), message-wise legal interleavings (a response is "
+           "offered only after the whole request it answers), random chunkings; distinct = distinct final dumps",
+}
